@@ -105,7 +105,7 @@ class ffunc:
         return self.reduce(cube, regions)
 
     @staticmethod
-    def adjust_zeros(arr, new="nan", condition=None):
+    def adjust_zeros(arr, new="nan", condition=None, scaffold_ndim=0):
         """Set arr[<condition or isclose(arr, 0)>] = new and return it.
 
         Sometimes, marginal differencing can produce minutely different results
@@ -129,9 +129,12 @@ class ffunc:
         if condition is None:
             # Rounding noise scales with the totals involved: a value is only
             # "barely not 0" relative to them, never in absolute terms alone
-            # (weights may be normalized to any scale).
-            scale = numpy.abs(numpy.nan_to_num(arr)).sum()
-            condition = numpy.isclose(arr, 0, atol=min(1e-8, 1e-10 * scale))
+            # (weights may be normalized to any scale). Each subcube (the
+            # leading `scaffold_ndim` axes index them) has its own totals.
+            magnitudes = numpy.abs(numpy.nan_to_num(arr))
+            axes = tuple(range(scaffold_ndim, magnitudes.ndim))
+            scale = magnitudes.sum(axis=axes, keepdims=True) if axes else magnitudes
+            condition = magnitudes <= numpy.minimum(1e-8, 1e-10 * scale)
 
         if condition.any():
             if new == "nan" and "i" in arr.dtype.str:
@@ -469,7 +472,9 @@ class ffunc_valid_count(ffunc):
         counts = counts[cube.marginless]
 
         if self.return_missing_as == 0:
-            counts = self.adjust_zeros(counts, self.null)
+            counts = self.adjust_zeros(
+                counts, self.null, scaffold_ndim=len(cube.scaffold_shape)
+            )
         else:
             cube._compute_common_cells_from_marginal_diffs(valid_counts)
             valid_counts = valid_counts[cube.marginless]
@@ -763,7 +768,9 @@ class ffunc_mean(ffunc):
 
         cube._compute_common_cells_from_marginal_diffs(valid_counts)
         valid_counts = valid_counts[cube.marginless]
-        valid_counts = self.adjust_zeros(valid_counts, new=0)
+        valid_counts = self.adjust_zeros(
+            valid_counts, new=0, scaffold_ndim=len(cube.scaffold_shape)
+        )
 
         if self.ignore_missing:
             output_is_missing = valid_counts == 0
